@@ -36,7 +36,8 @@ META = {
                   "that are neither queries nor sent twice, 5 otherwise) is asserted per IEC table row.",
     "explanation": "symbolic execution of the drivers' construct/_cmd/_send_raw/send_dali_command/send/extract/"
                    "unpack_response code with symbolic frame and packet bytes",
-    "bounds": ["frame bits fully symbolic (2^16 / 2^24), flags enumerated", "unsupported widths 1..64 symbolic",
+    "bounds": ["daliserver stream history shared with C16 (two commands, persistent or per-command connection)",
+               "frame bits fully symbolic (2^16 / 2^24), flags enumerated", "unsupported widths 1..64 symbolic",
                "sequence numbers: arbitrary state, two consecutive calls",
                "receive side: status/type bytes and values symbolic",
                "Tridonic, LUBA, SCI: two commands of different widths (24 then 16, 16 then 24, ...) through the "
